@@ -844,6 +844,37 @@ theorem table_malformed_later_subsection_rejected (subs : List TSub) (hne : subs
     hsub
   exact ⟨k, c', by rw [hP, hk]; rfl⟩
 
+/-! ## numbering -/
+
+
+/-- C13 `numbering_consecutive`, for ALL inputs (not only encoder output): whenever `XrefSubSectP`
+    accepts, it holds exactly `count` entries and entry `k` carries object number `start + k`;
+    whenever the row loop of an xref stream accepts a subsection `(start, count)`, likewise. -/
+theorem numbering_consecutive :
+    (∀ (s : Bytes) (c : Nat) (ss : Located SubSect) (c' : Nat), xrefSubSectP s c = (.ok ss, c') →
+      ss.val.ents.length = ss.val.count ∧
+      ∀ k (h : k < ss.val.ents.length), (ss.val.ents[k]).val.obj = ss.val.start + k) ∧
+    (∀ (w0 w1 w2 cnt start : Nat) (s : Bytes) (c : Nat) (l : List (Located Ent)) (c' : Nat),
+      rowsLoop w0 w1 w2 cnt start s c = (.ok l, c') →
+      l.length = cnt ∧ ∀ k (h : k < l.length), (l[k]).val.obj = start + k) := by
+  refine ⟨?_, fun w0 w1 w2 cnt start s c l c' h => rows_numbering w0 w1 w2 cnt start s c l c' h⟩
+  intro s c ss c' h
+  unfold xrefSubSectP at h
+  obtain ⟨_, c0, _, h⟩ := andThen_eq_ok h
+  obtain ⟨xs, c1, _, h⟩ := andThen_eq_ok h
+  split at h
+  · simp at h
+  obtain ⟨_, c2, _, h⟩ := andThen_eq_ok h
+  obtain ⟨xc, c3, _, h⟩ := andThen_eq_ok h
+  split at h
+  · simp at h
+  obtain ⟨_, c4, _, h⟩ := andThen_eq_ok h
+  obtain ⟨es, c5, hes, h⟩ := andThen_eq_ok h
+  simp only [Prod.mk.injEq, Res.ok.injEq] at h
+  obtain ⟨rfl, _⟩ := h
+  have ⟨h1, _, h3⟩ := ents_numbering _ _ s c4 es c5 hes
+  exact ⟨h1, h3⟩
+
 /-! ## defect #32: witness on the code as shipped, and the fixed code on the same input -/
 
 
